@@ -83,7 +83,38 @@ type apiRequest struct {
 	asyncResolutions        chan asyncResolution
 	chainedAsyncResolutions map[graphql.ResolvePromise]struct{}
 	batches                 map[*int]*batch
+
+	// Closed once the execution that the goroutines were started for has returned. Nothing will
+	// receive their resolutions after that, so it releases them instead of leaving them blocked
+	// forever (e.g. when a failing sibling field caused pending work to be discarded).
+	executionDone chan struct{}
 }
+
+func newAPIRequest() *apiRequest {
+	return &apiRequest{
+		executionDone: make(chan struct{}),
+	}
+}
+
+// finishExecution must be invoked whenever an execution that used the request's IdleHandler has
+// returned. It releases all goroutines that are still waiting to hand over a result.
+func (r *apiRequest) finishExecution() {
+	close(r.executionDone)
+	r.executionDone = make(chan struct{})
+}
+
+// awaitPromise waits for a promise that is fulfilled by the idle handler. It gives up (ok == false)
+// if the execution returns first.
+func awaitPromise(p graphql.ResolvePromise, executionDone chan struct{}) (result graphql.ResolveResult, ok bool) {
+	select {
+	case result = <-p:
+		return result, true
+	case <-executionDone:
+		return result, false
+	}
+}
+
+var errExecutionDone = errors.New("execution finished before the result was needed")
 
 func (r *apiRequest) IdleHandler() {
 	for {
@@ -138,8 +169,12 @@ func chain(ctx context.Context, p graphql.ResolvePromise, f func(interface{}) (i
 		apiRequest.chainedAsyncResolutions = map[graphql.ResolvePromise]struct{}{}
 	}
 	apiRequest.chainedAsyncResolutions[p] = struct{}{}
+	executionDone := apiRequest.executionDone
 	return Go(ctx, func() (interface{}, error) {
-		result := <-p
+		result, ok := awaitPromise(p, executionDone)
+		if !ok {
+			return nil, errExecutionDone
+		}
 		if !isNil(result.Error) {
 			return nil, result.Error
 		}
@@ -155,10 +190,14 @@ func join(ctx context.Context, p []graphql.ResolvePromise, f func([]interface{})
 	for _, p := range p {
 		apiRequest.chainedAsyncResolutions[p] = struct{}{}
 	}
+	executionDone := apiRequest.executionDone
 	return Go(ctx, func() (interface{}, error) {
 		values := make([]interface{}, len(p))
 		for i, p := range p {
-			result := <-p
+			result, ok := awaitPromise(p, executionDone)
+			if !ok {
+				return nil, errExecutionDone
+			}
 			if !isNil(result.Error) {
 				return nil, result.Error
 			}
@@ -175,14 +214,20 @@ func Go(ctx context.Context, f func() (interface{}, error)) graphql.ResolvePromi
 		apiRequest.asyncResolutions = make(chan asyncResolution)
 	}
 	ch := make(graphql.ResolvePromise, 1)
+	asyncResolutions := apiRequest.asyncResolutions
+	executionDone := apiRequest.executionDone
 	go func() {
 		v, err := f()
-		apiRequest.asyncResolutions <- asyncResolution{
+		select {
+		case asyncResolutions <- asyncResolution{
 			Result: graphql.ResolveResult{
 				Value: v,
 				Error: err,
 			},
 			Dest: ch,
+		}:
+		case <-executionDone:
+			// The execution returned without waiting for this result.
 		}
 	}()
 	return ch
@@ -223,7 +268,8 @@ func Batch(f func([]graphql.FieldContext) []graphql.ResolveResult) func(graphql.
 // parameters or POST requests with either the application/json or application/graphql content type.
 func (api *API) ServeGraphQL(w http.ResponseWriter, r *http.Request) {
 	ctx := context.WithValue(r.Context(), apiContextKey, api)
-	apiRequest := &apiRequest{}
+	apiRequest := newAPIRequest()
+	defer apiRequest.finishExecution()
 	ctx = context.WithValue(ctx, apiRequestContextKey, apiRequest)
 	r = r.WithContext(ctx)
 
